@@ -20,7 +20,7 @@ ARGS = ["plain", "two words", "", 'q"uote', "it's", "ünï", "a=b", "--looks-lik
 def case(ctx, rng, deps_directed=False):
     """deps_directed: a named target reaches an unnamed dependency through --deps, and that dependency has argument maps of its own"""
     n = rng.randint(2, 5)
-    names_pool = ["dev", "ci", "extra", "missing"]
+    names_pool = ["dev", "ci", "ci.linux", "rel-1.2", "missing"]      # names with dots beside a name that is their prefix: each names its own file
     targets, files, defs_by_target, dir_by_target, argdir_by_target = [], [], {}, {}, {}
     cmds = rng.sample(["build", "test"], rng.randint(1, 2))
     cfg_targets = []
@@ -81,7 +81,7 @@ def case(ctx, rng, deps_directed=False):
         # argmap files
         for t in cfg_targets:
             p = t["path"]; d = os.path.join(rr.repo, argdir_by_target[p]); os.makedirs(d, exist_ok=True)
-            for nm in ["base"] + names_pool[:3]:
+            for nm in ["base"] + names_pool[:4]:
                 if rng.random() < 0.6 or (deps_directed and nm == "base"):
                     cm = {}
                     for c in (["build", "test"] if deps_directed and nm == "base" else rng.sample(["build", "test", "other"], rng.randint(0, 3))):
